@@ -119,6 +119,10 @@ def py_check_hmac_token(case, out):
     """independent recomputation of the last signature of an HMAC product"""
     f = case.split("\t")
     key = json.loads(f[3])
+    if isinstance(key, dict) and isinstance(key.get("keys"), list):
+        key = key["keys"]
+    if isinstance(key, list):
+        return py_check_hmac_keyset(f, key, json.loads(out))
     if not isinstance(key, dict):
         return None
     tok = json.loads(out)
@@ -134,6 +138,45 @@ def py_check_hmac_token(case, out):
     want = G.b64(pyhmac.new(k, (prot + "." + tok["payload"]).encode(), HASH[alg]).digest())
     if entry.get("signature") != want:
         return ("sig-hmac-not-rfc7515:" + alg, "HMAC signature differs from HMAC(k, ASCII(protected '.' payload)) for " + alg)
+    return None
+
+
+def py_check_hmac_keyset(f, keys, tok):
+    """a key SET was signed with in one call: the product must carry, in key order, one signature per key, each the
+    HMAC of ITS key over ITS protected header and the payload, under the algorithm that key calls for"""
+    if not keys or not all(isinstance(k, dict) and isinstance(k.get("k"), str) for k in keys):
+        return None
+    try:
+        start = json.loads(f[1])
+    except Exception:
+        return None
+    if not isinstance(start, dict) or "signature" in start or "signatures" in start:
+        return None      # pre-existing entries: the position of the new ones is C16's subject
+    entries = tok.get("signatures") if isinstance(tok.get("signatures"), list) else [tok]
+    if len(entries) != len(keys):
+        return ("sig-keyset-count", "%d keys gave %d signatures" % (len(keys), len(entries)))
+    for i, (k, e) in enumerate(zip(keys, entries)):
+        prot = e.get("protected", "")
+        hdr = json.loads(G.unb64(prot)) if prot else {}
+        alg = hdr.get("alg") or (e.get("header") or {}).get("alg")
+        kb = G.unb64(k["k"])
+        implied = k.get("alg") or ("HS512" if len(kb) >= 64 else "HS384" if len(kb) >= 48 else "HS256")
+        tmpl_alg = None
+        try:
+            t = json.loads(f[2]) if f[2] != "-" else None
+            ti = t[i] if isinstance(t, list) else t
+            if isinstance(ti, dict):
+                tp = ti.get("protected")
+                tmpl_alg = (tp.get("alg") if isinstance(tp, dict) else None) or (ti.get("header") or {}).get("alg")
+        except Exception:
+            pass
+        if alg not in HASH:
+            return ("sig-alg-unrecorded", "signature %d of a key-set product names no HMAC algorithm" % i)
+        if tmpl_alg is None and alg != implied:
+            return ("sig-keyset-alg-not-per-key", "signature %d of a key-set product is made with %s although its key calls for %s" % (i, alg, implied))
+        want = G.b64(pyhmac.new(kb, (prot + "." + tok["payload"]).encode(), HASH[alg]).digest())
+        if e.get("signature") != want:
+            return ("sig-keyset-hmac-not-rfc7515", "signature %d of a key-set product is not HMAC(key %d, protected '.' payload)" % (i, i))
     return None
 
 
@@ -154,7 +197,16 @@ def correspond(ctx):
                 return None
         return None
 
-    st = runner.standard(ctx, cases, oracle, lambda c, o: o != "ERR",
+    def on_disagree(case, impl, model):
+        if impl == "ERR" and model.startswith("{"):
+            return ("sign-refuses-valid-request", "jose_jws_sig fails for a request that the independent RFC 7515 producer (Gallina model) serves")
+        if impl.startswith("{") and model == "ERR":
+            return ("sign-serves-invalid-request", "jose_jws_sig produces a JWS for a request that the independent RFC 7515 producer (Gallina model) refuses")
+        if impl.startswith("{") and model.startswith("{"):
+            return ("sign-product-differs", "jose_jws_sig's product differs from the independent RFC 7515 producer's (deterministic HMAC)")
+        return None
+
+    st = runner.standard(ctx, cases, oracle, lambda c, o: o != "ERR", on_disagree=on_disagree,
                          rule="jose_jws_sig with HMAC keys of sizes 0..1025, the algorithm given in the template (protected object / protected string / unprotected header), by the key's alg or inferred by size, fresh / flattened / general start objects, key arrays and JWKSets with shared or per-key templates, malformed arguments -- product compared bit for bit with the model and with python hmac; model-produced and RFC tokens verified by jose; RSA/PSS/ECDSA products of jose verified by the BigZ model; BigZ-produced ECDSA/RSA tokens verified by jose; non-trivial = a product was made",
                          dist=dist)
 
